@@ -1023,6 +1023,19 @@ func c13Direct(c *Ctx, r *Result, idx int, seed int64, nearMiss, overlap bool, c
 		mk := c.Drv.Ask("C13.keysok", c13EncParams(params), outs.encStr())
 		r.hist(fmt.Sprintf("direct:gate:real=%v,model-keysVerified=%s", gateOK, mk))
 		otherNearMiss := g.tags["illtyped"] || g.tags["struct-missing-key"] || g.tags["struct-extra-key"]
+		// since the F25 repair moveOutDir REPORTS a key it skips: an error exactly when keysVerified is false
+		keyErr := false
+		for _, e := range errs {
+			if strings.Contains(e, "cannot create out directory") {
+				keyErr = true
+			}
+		}
+		r.hist(fmt.Sprintf("direct:illegal-key-error:real=%v,model=%v", keyErr, mk == "false"))
+		if keyErr != (mk == "false") && !otherNearMiss {
+			r.violate(Violation{Kind: "correspondence", Key: "C13:illegal-key-error", Broken: "mapped_keys_checked / keysVerified = false <-> moveOutDir reports the skipped key",
+				What:  fmt.Sprintf("moveOutFiles reported an illegal-key error=%v, the model's keysVerified=%s", keyErr, mk),
+				Input: cas, Impl: errs})
+		}
 		if (gateOK && mk != "true") || (!gateOK && mk != "false" && !otherNearMiss) {
 			r.violate(Violation{Kind: "correspondence", Key: "C13:verification-gate", Broken: "verified_outputs_keep_all_keys (hypothesis keysVerified = what TypedMapType.IsValidJson demands of keys)",
 				What:  fmt.Sprintf("output verification (ValidateOutputs) accepted=%v, the model's keysVerified=%s: %s", gateOK, mk, c13Short(gateMsg)),
